@@ -24,7 +24,7 @@ while k < len(lines) and lines[k].startswith("| "):
     k += 1
 rest = "\n".join(lines[k:])
 s = s[:i] + "\n".join(rows) + "\n" + rest
-s = re.sub(r"\*\*\d+ changes over \w+ rounds \(\d per property\): \d+ caught by the checks as they were, \d+ missed at first\.\*\*",
-           "**%d changes over seven rounds (7 per property; C19 has 6): %d caught by the checks as they were, %d missed at first.**" % (len(rows), caught, missed), s)
+s = re.sub(r"\*\*\d+ changes over \w+ rounds \([^)]*\): \d+ caught by the checks as they were, \d+ missed at first\.\*\*",
+           "**%d changes over eight rounds (8 per property; C19 has 7): %d caught by the checks as they were, %d missed at first.**" % (len(rows), caught, missed), s)
 open(p, "w").write(s)
 print(len(rows), "rows;", caught, "caught as built;", missed, "missed at first")
